@@ -38,16 +38,26 @@ RULE = ("histories over one or two fonts (new, or opened from a UFO 3 written fo
         "live or removed object, clearing dirty flags, full accessor dumps; half of the cases start with a scripted "
         "scenario (ghost after remove, replaced glyph, rename onto a name, layer deletion, owned twice, operations on a "
         "deleted glyph, lazy loading, list assignment, rename away and back, two fonts), with and without a read of the "
-        "accessors before the critical step; non-trivial = something was removed/replaced AND a mutate AND an "
-        "insertion; distinct = distinct op lists")
+        "accessors before the critical step; two cases in five run on fonts built in memory with components that name "
+        "base glyphs (Component() with a base glyph name, component.baseGlyph =, decomposeComponent, changes of a base "
+        "glyph and of its contours; scripted: base glyph replaced / deleted / renamed away and back / another glyph "
+        "renamed onto its name, a layer with base glyph, referencing glyph and image deleted in both creation orders, "
+        "every way a component leaves its glyph followed by a change of its former base glyph); every dump compares "
+        "the COMPLETE registry of every font's notification centre; non-trivial = something was removed/replaced AND a "
+        "mutate AND an insertion; distinct = distinct op lists")
 ASSUMPTIONS = [
     "no operation addresses a layer by name (newGlyph, getGlyph, delete, insertGlyph) after the layer was deleted from "
     "its font, and the default layer is never deleted: a layer without a font does not keep its own bookkeeping "
     "(renaming one of its glyphs leaves the old key) - both sides answer `Detached`",
     "layers are not renamed onto an existing layer name (LayerSet._layerNameChange would duplicate the name in the "
     "layer order: outside every property's domain)",
-    "component graph acyclic; components with a base glyph only in the cross-link cases, which run on fonts built in "
-    "memory and do not compare the notification log (a base glyph's change legitimately makes referencing glyphs post)",
+    "component graph acyclic (a component may only name a base glyph of lower rank than its glyph's name: A < B < "
+    "everything else); components with a base glyph other than `missing` only in the cross-link cases, which run on "
+    "fonts built in memory (attaching a component whose base glyph is only on disk loads that glyph)",
+    "components are appended (insertComponent at the end): Layer.insertGlyph copies them in list order, which the model "
+    "knows as insertion order",
+    "decomposeComponent only for a component the glyph lists, of a glyph that has a layer (both sides answer "
+    "ValueError / `Detached` otherwise)",
     "the font lib, the font info and the contours of a loaded glyph are built eagerly by the adaptor (font.lib / "
     "font.info / len(glyph) right after creation/loading): defcon builds them on first access, their number and the "
     "info's registrations would otherwise depend on it",
@@ -59,8 +69,10 @@ ASSUMPTIONS = [
 TRUSTED = [
     "objects are named by creation order; the adaptor's discovery order of objects built by one operation (loading, "
     "Layer.insertGlyph) is mirrored by the model's allocation order",
-    "registrations are read off NotificationCenter._registry (read-only) and restricted to parent<-child and self "
-    "registrations; cross links (component -> base glyph/layer, image -> image set/layer) are not modelled",
+    "registrations are read off NotificationCenter._registry (read-only): EVERY (observer, notification, observable) of "
+    "every font's centre except the adaptor's own recorder; objects are canonicalised to their number, the font's image "
+    "set / data set / info to `(imageSet f)` / `(dataSet f)` / `(info f)`, anything else to `(unknown Class)` (which the "
+    "model never produces)",
     "the adaptor keeps every object alive for the whole case (BaseObject.__del__ unregisters observers)",
 ]
 
@@ -421,7 +433,8 @@ class Gen(object):
         self.sh.apply(op)
         self.ops.append(op)
         if dump is None:
-            dump = self.rng.random() < 0.8
+            # the cross-link cases compare the complete registry after EVERY operation of the random part
+            dump = self.rng.random() < (1.0 if self.xlink else 0.8)
         if dump and op[0] != "dump":
             self.ops.append(["dump"])
 
@@ -1022,6 +1035,15 @@ def sc_x_rename_base(g):
     k = _contour_in(g, a)
     h, c = _based_host(g, la, "C", "A")
     _maybe_dump(g)
+    if rng.random() < 0.3:
+        # the base glyph is renamed onto the name of the glyph that holds the component: that glyph is replaced while
+        # `Glyph.NameChanged` is being delivered to its component
+        g.emit(["renameGlyph", a, "C"], dump=True)
+        g.emit(["clean"], dump=False)
+        for x in [k, c, h, a]:
+            g.mutate(x, dump=False)
+        g.emit(["dump"])
+        return
     g.emit(["renameGlyph", a, "X1"], dump=True)
     g.emit(["clean"], dump=False)
     g.mutate(k, dump=True)
@@ -1107,12 +1129,18 @@ def neighbourhood(case, step, rng):
     yield dict(case, ops=prefix + tail + [["dump"]])
     glyphs = [i for i in ids if sh.kind[i] == "glyph"]
     loose = [i for i in ids if sh.kind[i] in CHILD_KINDS and sh.owner.get(i) is None]
+    def acyclic(gl, name):
+        """the component graph stays acyclic (outside the domain otherwise: the real code recurses without end)"""
+        return all(brank(sh.base.get(k)) < rank(name) for k in sh.kids[gl] if sh.kind[k] == "component")
     for x in loose[:6]:
         for gl in glyphs[:4]:
+            if sh.kind[x] == "component" and not brank(sh.base.get(x)) < rank(sh.name.get(gl, "")):
+                continue
             yield dict(case, ops=prefix + [["insert", gl, x, 0], ["dump"], ["clean"], ["mutate", x, 2000], ["dump"]])
     for la in sh.live_layers()[:2]:
         for gl in glyphs[:4]:
-            yield dict(case, ops=prefix + [["insertGlyph", la, gl, "NB"], ["dump"]])
+            if acyclic(gl, "NB"):
+                yield dict(case, ops=prefix + [["insertGlyph", la, gl, "NB"], ["dump"]])
     yield case
 
 
@@ -1669,6 +1697,7 @@ class Oracle(object):
         that layer files under its base glyph name (the layer alone when it files none, nothing without a base
         glyph name); an image exactly the font's image set and its layer.
     S3b: while an object is changed, nothing that is not reachable from a font sends a notification.
+    S0: no operation dies of a TypeError / AttributeError / RuntimeError (a removed object that is still called back).
     """
 
     def __init__(self, world):
@@ -1729,6 +1758,10 @@ class Oracle(object):
         self.edges = now
         k = op[0]
         failed = isinstance(result, list) and result and result[0] == "err"
+        # S0: an operation of the domain never dies of a TypeError / AttributeError: the way a callback of an object
+        # that has just been let go (and is still called back by the delivery in progress) shows
+        if failed and str(result[1]) in ("TypeError", "AttributeError", "RuntimeError"):
+            self.report("operation-crashed", "%s/%s" % (k, result[1]), op=list(op))
         # S2 bookkeeping ------------------------------------------------------------------
         for (p, x) in before - now:
             self.removed.add(x)
